@@ -44,6 +44,7 @@ def place_demo(d):
         pkg = re.search(r"^package (\w+)", src, re.M).group(1)
         m = re.search(re.escape(base) + r"[^\n]*?((?:<repo>/)?src/[A-Za-z0-9_/]+)", text) or re.search(r"((?:<repo>/)?src/[A-Za-z0-9_/]+)[^\n]*" + re.escape(base), text)
         target = None
+        explicit = re.search(r"<repo>/([A-Za-z0-9_./-]+?)/" + re.escape(base), text)
         if pkg.endswith("_test"):
             pkg = pkg[:-5]
         if pkg in PKGDIR:
@@ -54,13 +55,15 @@ def place_demo(d):
             target = m.group(1).replace("<repo>/", "").rstrip("/") if m else "."
             if re.search(r"<repo>/" + re.escape(base), text) or re.search(re.escape(base) + r"\s+<repo>/?\s", text):
                 target = "."        # the instructions name the repository root itself
+        if explicit:
+            target = explicit.group(1)          # the instructions name the directory of this very file
         if target is None:
             raise SystemExit("cannot place " + f)
         if target.endswith(".go"):
             target = os.path.dirname(target)
         os.makedirs(os.path.join(WT, target), exist_ok=True)
         shutil.copy(f, os.path.join(WT, target, base))
-        tags = "verif" if re.search(r"^//go:build .*verif", src, re.M) else ""
+        tags = "verif" if re.search(r"^//go:build .*verif", src, re.M) or re.search(r"go test[^\n]*-tags verif", text) else ""
         tests = re.findall(r"^func (Test\w+)\(", src, re.M)
         runs.append((target, "^(" + "|".join(tests) + ")$" if tests else None, tags, pkg == "main" and not base.endswith("_test.go")))
     return runs, meta
